@@ -203,7 +203,38 @@ def find_method(clsname, meth, after=None):
     return None, None
 
 
+_store_cache = {}
+
+
+def class_stores_attr(clsname, attr):
+    """does any class of the mro assign this attribute (self.<attr> = ... in a method, setattr(self, '<attr>', ...), or a
+    class-level default)?  Then it is state of the object: a contract that does not describe it cannot assume
+    anything about its value at entry (it depends on the history of calls on the object)."""
+    key = (clsname, attr)
+    if key in _store_cache:
+        return _store_cache[key]
+    found = False
+    for ci in mro(clsname):
+        for node in ast.walk(ci.node):
+            if isinstance(node, ast.Attribute) and node.attr == attr and isinstance(node.ctx, (ast.Store, ast.Del)) \
+                    and isinstance(node.value, ast.Name) and node.value.id == 'self':
+                found = True
+            elif isinstance(node, ast.Call) and isinstance(node.func, ast.Name) and node.func.id == 'setattr' and \
+                    len(node.args) >= 2 and isinstance(node.args[1], ast.Constant) and node.args[1].value == attr:
+                found = True
+        for node in ci.node.body:
+            if isinstance(node, (ast.Assign, ast.AnnAssign)):
+                tg = node.targets if isinstance(node, ast.Assign) else [node.target]
+                if any(isinstance(t, ast.Name) and t.id == attr for t in tg):
+                    found = True
+        if found:
+            break
+    _store_cache[key] = found
+    return found
+
+
 def reset():
+    _store_cache.clear()
     global _class_table
     _mod_cache.clear()
     _class_table = None
